@@ -24,6 +24,52 @@ def splitNl (b : Bytes) : List Bytes :=
 /-- order-sensitive digest of one index list -/
 def digest (ix : List Int) : Int := ix.foldl (fun acc v => (acc * 131 + v + 7) % 1000000007) 1
 
+/-- driver-only guard for POSIX mode (which enumerates the whole priority list): number of list elements per end
+offset (`v`) and number of list elements built on the way (`w`), computed without building them -/
+structure PathW where
+  v : List Nat
+  w : Nat
+
+def unitV (len i : Nat) : List Nat := (List.range (len + 1)).map fun j => if j = i then 1 else 0
+def addV (a b : List Nat) : List Nat := List.zipWith (· + ·) a b
+def scaleV (k : Nat) (a : List Nat) : List Nat := a.map (k * ·)
+
+def pathW (s : Bytes) : Rx.Re → Nat → PathW
+  | .eps, i => ⟨unitV s.length i, 1⟩
+  | .cls neg rs, i =>
+    match s[i]? with
+    | some b => if Rx.inCls neg rs b then ⟨unitV s.length (i + 1), 1⟩ else ⟨unitV s.length (s.length + 1), 1⟩
+    | none => ⟨unitV s.length (s.length + 1), 1⟩
+  | .look k, i => if Rx.holds s k i then ⟨unitV s.length i, 1⟩ else ⟨unitV s.length (s.length + 1), 1⟩
+  | .cat a b, i =>
+    let A := pathW s a i
+    (A.v.zipIdx).foldl (fun (acc : PathW) (jc : Nat × Nat) =>
+      if jc.1 = 0 then acc else
+      let B := pathW s b jc.2
+      ⟨addV acc.v (scaleV jc.1 B.v), acc.w + jc.1 * B.w⟩) ⟨unitV s.length (s.length + 1), A.w⟩
+  | .alt a b, i =>
+    let A := pathW s a i
+    let B := pathW s b i
+    ⟨addV A.v B.v, A.w + B.w⟩
+  | .star _ a, i =>
+    -- positions len, len-1, …, i: table of the loop's own counts from each position
+    let tbl := (List.range (s.length + 1 - i)).foldl (fun (tbl : List (Nat × PathW)) d =>
+      let pos := s.length - d
+      let A := pathW s a pos
+      let P := (A.v.zipIdx).foldl (fun (acc : PathW) (jc : Nat × Nat) =>
+        if jc.1 = 0 || jc.2 ≤ pos then acc else
+        match tbl.find? (·.1 == jc.2) with
+        | some (_, B) => ⟨addV acc.v (scaleV jc.1 B.v), acc.w + jc.1 * B.w⟩
+        | none => acc) ⟨unitV s.length pos, 1 + A.w⟩
+      (pos, P) :: tbl) []
+    match tbl.find? (·.1 == i) with
+    | some (_, P) => P
+    | none => ⟨unitV s.length i, 1⟩
+  | .grp _ a, i => pathW s a i
+
+def totalWork (s : Bytes) (r : Rx.Re) : Nat :=
+  (List.range (s.length + 1)).foldl (fun acc p => acc + (pathW s r p).w) 0
+
 def ansOf : Except String KeyAns → String
   | .error _ => "panic"
   | .ok .json => "unmodelled json"
@@ -49,7 +95,8 @@ def ansOf : Except String KeyAns → String
   used by the implementation side;
 * `rx <posix> <pattern> <line>` – the regex engine itself, for the modelled fragment (`Model/C02Rx`, parsed by
   `Model/C02RxParse`): `FindSubmatchIndex(line)` of `fastregex.CompileEx(pattern, posix)` and the wrapper's
-  name table (`idx:name` pairs by index); `unmodelled` outside the fragment (POSIX mode, non-ASCII, `{n,m}`, …);
+  name table (`idx:name` pairs by index); `posix = 1`: POSIX syntax and leftmost-longest (`findSubmatchIndexL`);
+  `unmodelled` outside the fragment (non-ASCII, nullable loop bodies, flags, …);
 * `rxkey <pattern> <line> <key>` – `{key}` evaluated by the real extractor with the real regex matcher, the
   model side computing everything from the pattern text: parser, leftmost-first matcher, name table, `GetKey`;
 * `vis <bytes>` – `color.StrLen`'s visible bytes (count compared with the real `StrLen`);
@@ -142,12 +189,12 @@ def handle : List String → String
   | ["rx", px, p, l] =>
     match Hex.dec p, Hex.dec l with
     | some pat, some line =>
-      if px != "0" then "unmodelled posix"
-      else if line.any (· ≥ 0x80) then "unmodelled non-ascii"
-      else match Rx.parse pat with
+      if line.any (· ≥ 0x80) then "unmodelled non-ascii"
+      else match Rx.parseEx (px != "0") pat with
         | none => "unmodelled syntax"
         | some pr =>
-          let ix := Rx.findSubmatchIndex line pr.re pr.ng
+          if px != "0" && totalWork line pr.re > 400000 then "unmodelled paths" else
+          let ix := if px != "0" then Rx.findSubmatchIndexL line pr.re pr.ng else Rx.findSubmatchIndex line pr.re pr.ng
           let tbl := (Rare.C16.regexNameTable pr.subexpNames).mergeSort (fun a b => a.2 ≤ b.2)
           let ns := if tbl.isEmpty then "." else ",".intercalate (tbl.map fun e => s!"{e.2}:{Hex.enc e.1}")
           s!"ok {if ix.isEmpty then "." else ",".intercalate (ix.map toString)} {ns}"
